@@ -13,11 +13,16 @@ trap 'rm -rf "$scratch"' EXIT
 flags=""
 [ -f "$w/flags" ] && flags=$(cat "$w/flags")
 mkdir -p "$scratch/demo"
-"$scratch/pigeon" $flags -o "$scratch/demo/parser.go" "$w/g.peg" >"$scratch/gen.log" 2>&1
+# the generator run is time-limited (gen_timeout seconds, default 60; exit status 124 = still running)
+gt=60
+[ -f "$w/gen_timeout" ] && gt=$(cat "$w/gen_timeout")
+(ulimit -v 4000000 2>/dev/null; exec timeout "$gt" "$scratch/pigeon" $flags -o "$scratch/demo/parser.go" "$w/g.peg") >"$scratch/gen.log" 2>&1
 genrc=$?
 if [ -f "$w/expect_gen_fail" ]; then
   # the defect is in the generator run itself
-  sh "$w/expect_gen_fail" "$genrc" "$scratch/gen.log"; exit $?
+  sh "$w/expect_gen_fail" "$genrc" "$scratch/gen.log"; erc=$?
+  # 9 = the generator outcome decides nothing: go on, build and run the generated parser
+  [ $erc -eq 9 ] || exit $erc
 fi
 [ $genrc -eq 0 ] || { cat "$scratch/gen.log"; exit 3; }
 cp "$w/main.go" "$scratch/demo/main.go"
